@@ -300,6 +300,17 @@ def _run_program(case, prog, cls, src, tags, unsupported):
     known = sorted(KNOWN_TRIGGERS[f] for f in feats if f in KNOWN_TRIGGERS)
     ktag = ('|' + '+'.join(known)) if known else ''
     seq = prog['kind'] == 'seq'
+    if case.get('decoy_other'):
+        # an unrelated class whose *ports* are called like the locals / state / constants of the program is transpiled
+        # first: nothing the transpiler learnt from it may leak into the text of the class under test
+        try:
+            from ..behav_blocks import DecoyPorts
+            dsys = py4hw.HWSystem()
+            dw = [dsys.wire(n, 8) for n in ('x0', 'x1', 's0', 'k0', 'q')]
+            py4hw.VerilogGenerator(DecoyPorts(dsys, 'decoy', *dw)).getVerilog(noInstanceNumber=True)
+        except Exception:
+            pass
+        tags.append('decoy_other_class_first')
     if case.get('decoy') is not None and prog['consts']:
         # another instance of the same class, built with other constructor constants, is transpiled first: what the
         # transpiler learnt from it must not leak into the text of the instance under test
@@ -544,6 +555,8 @@ def cases(draw, n_cycles, allow_known=False):
     case = {'kind': 'program', 'prog': prog, 'inputs': seq}
     if prog['consts'] and draw(st.booleans()):
         case['decoy'] = [draw(st.integers(0, 9).filter(lambda x, v=v: x != v)) for _, v in prog['consts']]
+    if draw(st.integers(0, 3)) == 0:
+        case['decoy_other'] = True
     return case
 
 
